@@ -415,6 +415,15 @@ func (x *Exec) bitOp(name string, a, b Term, rt types.Type) Term {
 	x.bitUF(name)
 	r := x.define(name, App(name, SInt, a, b))
 	x.assume(inRange(r, rt))
+	if name == "bor" || name == "bxor" {
+		// when the operands occupy disjoint bit ranges (one below bit k, the other a multiple of 2^k), or/xor is addition
+		for _, k := range []int{1, 2, 3, 4, 5, 6, 7, 8, 16, 24, 32, 40, 48, 56} {
+			p := IntLitStr(pow2(k))
+			x.assume(Implies(And(Le(IntLit(0), a), Lt(a, p), Le(IntLit(0), b), Eq(App("mod", SInt, b, p), IntLit(0))), Eq(r, Add(a, b))))
+			x.assume(Implies(And(Le(IntLit(0), b), Lt(b, p), Le(IntLit(0), a), Eq(App("mod", SInt, a, p), IntLit(0))), Eq(r, Add(a, b))))
+		}
+		x.trusted["bit operations: x|y and x^y equal x+y when the operands occupy disjoint bit ranges (the only fact assumed about | and ^ on non-constant operands)"] = true
+	}
 	return r
 }
 
@@ -640,7 +649,7 @@ func (x *Exec) execSlice(fr *Frame, st *State, ins *ssa.Slice) {
 			h = *hi
 		}
 		x.panicCheck(st, "bounds", ins.Pos(), And(Le(IntLit(0), l), Le(l, h), Le(h, b.Len)))
-		fr.vals[ins] = VStr{b.Base, x.define("soff", addSimpl(b.Off, l)), x.define("slen", Sub(h, l))}
+		fr.vals[ins] = VStr{b.Base, addSimpl(b.Off, l), x.define("slen", Sub(h, l))}
 	case VSlice:
 		l := IntLit(0)
 		if lo != nil {
@@ -655,7 +664,7 @@ func (x *Exec) execSlice(fr *Frame, st *State, ins *ssa.Slice) {
 			m = *max
 		}
 		x.panicCheck(st, "bounds", ins.Pos(), And(Le(IntLit(0), l), Le(l, h), Le(h, m), Le(m, b.Cap)))
-		fr.vals[ins] = VSlice{b.Arr, x.define("off", addSimpl(b.Off, l)), x.define("len", Sub(h, l)), x.define("cap", Sub(m, l))}
+		fr.vals[ins] = VSlice{b.Arr, addSimpl(b.Off, l), x.define("len", Sub(h, l)), x.define("cap", Sub(m, l))}
 	case VPtr, VScalar:
 		// slicing a pointer to array: arr[:n]
 		pt, ok := ins.X.Type().Underlying().(*types.Pointer)
